@@ -1174,7 +1174,9 @@ func Run(c *hx.Ctx) {
 			if out.blocks > 0 {
 				c.Hit("chain-nonempty")
 			}
-			c.Emit("stopped=%s invariants=%s", out.stopped, inv)
+			// the diffed line carries only what the model predicts; the invariants are monitor-only (every violation is a c.Report)
+			c.Hit("invariants/" + inv)
+			c.Emit("stopped=%s", out.stopped)
 		default:
 			c.Emit("bad-op")
 		}
